@@ -3,6 +3,7 @@ package e2
 import (
 	"fmt"
 	"strings"
+	"time"
 
 	"verif/ref"
 )
@@ -58,6 +59,31 @@ func rowA(id int64, label string, qty int64) ref.Image {
 
 func rowB(seq uint64, note string) ref.Image {
 	return ref.Image{ref.VUint64(seq), ref.VBlob(2, []byte(note))}
+}
+
+func sharedTable() *ref.Table {
+	return &ref.Table{ID: 72, DB: "shop", Name: "stamps", Flags: 1, Cols: []ref.Column{
+		ref.ColInt(ref.TLong, "id", false),
+		ref.ColFsp(ref.TDateTime2, "dt3", 3), ref.ColFsp(ref.TTimestamp2, "ts3", 3), ref.ColFsp(ref.TTime2, "ti3", 3),
+		ref.ColFsp(ref.TDateTime2, "dt0", 0), ref.ColFsp(ref.TTimestamp2, "ts0", 0),
+		ref.ColFsp(ref.TDateTime2, "dt6", 6), ref.ColFsp(ref.TTimestamp2, "ts6", 6),
+		ref.ColDecimal("de", 20, 4), ref.ColDecimal("de2", 20, 4), ref.ColPlain(ref.TTimestamp, "tso"), ref.ColPlain(ref.TDateTime, "dto"),
+		ref.ColPlain(ref.TDate, "da"), ref.ColPlain(ref.TTime, "tio")}}
+}
+
+func sharedRow(id int64, ms int, same bool) ref.Image {
+	s2 := 17
+	sec2 := uint32(1490106309)
+	if !same {
+		s2, sec2 = 33, 1490106333
+	}
+	return ref.Image{ref.VInt(ref.TLong, id, false),
+		ref.VDateTimeFsp(3, 2012, 6, 21, 15, 45, 17, ms*1000), ref.VTimestamp2(3, 1490106309, ms*1000, time.Local), ref.VTime2(3, false, 15, 45, 17, ms*1000),
+		ref.VDateTimeFsp(0, 2012, 6, 21, 15, 45, s2, 0), ref.VTimestamp2(0, sec2, 0, time.Local),
+		ref.VDateTimeFsp(6, 2012, 6, 21, 15, 45, 17, ms*1000+1), ref.VTimestamp2(6, 1490106309, ms*1000+1, time.Local),
+		ref.VDecimal(20, 4, fmt.Sprintf("1234567890.%04d", ms)), ref.VDecimal(20, 4, fmt.Sprintf("-1234567890.%04d", 9999-ms)),
+		ref.VTimestampOld(1490106309, time.Local), ref.VDateTimeOld(2012, 6, 21, 15, 45, 17),
+		ref.VDate3(2012, 6, 21), ref.VTimeOld(false, 15, 45, 17)}
 }
 
 // Gen builds histories from unit strings.
@@ -156,6 +182,27 @@ func (g *Gen) Unit(u string) []*ref.AEvent {
 			ref.TM(ts+1, tb),
 			ref.R(ts+1, ref.RowWrite, tb, ref.RowChange{After: rowB(uint64(k), "after the ddl")}),
 			ref.X(ts+2, uint64(900+k))}
+	case "shS1", "shS2", "shS3", "shI1", "shI2", "shI3":
+		// values whose text is built in a buffer and shares its leading part with
+		// the value decoded just before (S: every temporal column of the row holds
+		// the same second; I: columns of two different seconds alternate)
+		t := sharedTable()
+		same := u[2] == 'S'
+		row := func(id int64, ms int) ref.Image { return sharedRow(id, ms, same) }
+		switch u[3] {
+		case '1':
+			return []*ref.AEvent{ref.Q(ts, "shop", "BEGIN", cs), ref.TM(ts, t),
+				ref.R(ts, ref.RowWrite, t, ref.RowChange{After: row(1, 0)}, ref.RowChange{After: row(2, 765)}, ref.RowChange{After: row(3, 123)}),
+				ref.X(ts+1, uint64(900+k))}
+		case '2':
+			return []*ref.AEvent{ref.Q(ts, "shop", "BEGIN", cs), ref.TM(ts, t),
+				ref.R(ts, ref.RowUpdate, t, ref.RowChange{Before: row(2, 765), After: row(2, 100)}, ref.RowChange{Before: row(3, 123), After: row(3, 900)}),
+				ref.X(ts+1, uint64(900+k))}
+		}
+		return []*ref.AEvent{ref.Q(ts, "shop", "BEGIN", cs), ref.TM(ts, t),
+			ref.R(ts, ref.RowDelete, t, ref.RowChange{Before: row(2, 100)}),
+			ref.R(ts, ref.RowWrite, t, ref.RowChange{After: row(4, 999)}),
+			ref.X(ts+1, uint64(900+k))}
 	case UTx2:
 		return []*ref.AEvent{ref.Q(ts, "shop", g.sp("BEGIN", g.Begin), cs), ref.TM(ts, ta), ref.TM(ts, tb),
 			ref.R(ts, ref.RowWrite, ta, ref.RowChange{After: rowA(k, label, 7)}, ref.RowChange{After: rowA(k+1000, label+"b", 8)}),
